@@ -26,6 +26,7 @@ type c26Case struct {
 	Partitions int     `json:"partitions"` // blocks per flushed file
 	Merge      bool    `json:"merge"`      // write two files and merge them
 	Comp       string  `json:"comp"`
+	Big        bool    `json:"big,omitempty"` // volume phase: more probes
 }
 
 func genC26() *rapid.Generator[c26Case] {
@@ -49,6 +50,26 @@ func genC26() *rapid.Generator[c26Case] {
 		c.FPR = pick(t, "fpr", []float64{0.01, 0.001, 0.1, 0.5, 0.0001, 0.3, 0.9, 0.03, 1e-6, 1e-9})
 		c.Partitions = pick(t, "parts", []int{1, 3, 2})
 		c.Merge = chance(t, "merge", 35)
+		c.Comp = pick(t, "comp", []string{"snappy", "none"})
+		return c
+	})
+}
+
+// genC26Big: the "any volume" end of the quantifier. Hundreds of thousands to
+// millions of distinct entries in ONE block at strict rates, where a size cap,
+// an overflow or a sizing shortcut in the filter builder first shows.
+func genC26Big() *rapid.Generator[c26Case] {
+	return rapid.Custom(func(t *rapid.T) c26Case {
+		lo, hi := 250000, 1000000
+		if thorough() {
+			hi = 3000000
+		}
+		c := c26Case{Big: true}
+		c.N = rapid.IntRange(lo, hi).Draw(t, "n")
+		c.PerRow = pick(t, "perrow", []int{2000, 500, 20000})
+		c.FPR = pick(t, "fpr", []float64{1e-4, 1e-6, 1e-9, 0.001, 0.01, 1e-12})
+		c.Partitions = pick(t, "parts", []int{1, 1, 2})
+		c.Merge = chance(t, "merge", 25)
 		c.Comp = pick(t, "comp", []string{"snappy", "none"})
 		return c
 	})
@@ -153,6 +174,9 @@ func runC26(c c26Case) *Violation {
 	if thorough() {
 		probes = 60000
 	}
+	if c.Big {
+		probes = 200000
+	}
 	// check compares one of the library's filters with a reference filter the
 	// harness builds itself for the TRUE distinct entries at the configured rate
 	// (bloom.NewWithEstimates(n, p) + the same entries): parameters must not be
@@ -229,6 +253,9 @@ func runC26(c c26Case) *Violation {
 	if c.Merge {
 		Ev.Class("merged")
 	}
+	if c.Big {
+		Ev.Class(fmt.Sprintf("volume n>=%dk", c.N/250000*250))
+	}
 	if c.N >= 1000 && c.FPR <= 0.1 {
 		Ev.NonTrivial(jsonKey(c))
 		if Ev.WantSample() {
@@ -239,10 +266,11 @@ func runC26(c c26Case) *Violation {
 }
 
 func TestC26(t *testing.T) {
-	Ev.Rule = "case = n distinct tokens (1 .. 20 000 quick / 300 000 thorough; 1-200 tokens per row), configured rate from {0.9 .. 1e-4}, 1-3 blocks per file, optionally two files merged. Oracle (differential): for every file-level and block-level filter of the written files the harness builds a reference filter for the TRUE distinct entries (recomputed with its own walker/tokenizer) at the configured rate; (a) the library filter's parameters must not give a theoretical rate worse than 1.5x the reference's, (b) its measured rate over 20 000 (60 000) absent probes must be <= 1.1*max(reference measured rate, p) + 7 sigma, (c) it contains every entry. Non-trivial: n >= 1000 and p <= 0.1; distinct by case."
+	Ev.Rule = "case = n distinct tokens (1 .. 20 000 quick / 300 000 thorough; 1-200 tokens per row), configured rate from {0.9 .. 1e-4}, 1-3 blocks per file, optionally two files merged; plus a volume phase with 250 000 .. 1 000 000 (thorough 3 000 000) distinct entries in one or two blocks at rates 1e-2 .. 1e-12 and 200 000 probes. Oracle (differential): for every file-level and block-level filter of the written files the harness builds a reference filter for the TRUE distinct entries (recomputed with its own walker/tokenizer) at the configured rate; (a) the library filter's parameters must not give a theoretical rate worse than 1.5x the reference's, (b) its measured rate over 20 000 (60 000) absent probes must be <= 1.1*max(reference measured rate, p) + 7 sigma, (c) it contains every entry. Non-trivial: n >= 1000 and p <= 0.1; distinct by case."
 	Ev.Assumptions = []string{"statistical: 7-sigma tolerance per filter against a reference filter measured on the same probes", "absent probes are strings that were never inserted"}
 	Ev.Level = "exploration"
 	runChecks(t, "fpr", 60, 700, genC26(), runC26)
+	runChecks(t, "volume", 6, 80, genC26Big(), runC26)
 }
 
 var _ = rapid.Bool
